@@ -330,17 +330,29 @@ def run():
     for solver in ("adams5", "rk23", "bdf2", "euler"):
         rhs, y0, _ = ivpgen.system(rng, 2, 1.0, 0.0, kinds=["lin", "rough"])
         cases.append(ivpgen.base_case(len(cases) + 1, solver, 2, 0.0, 1.2, 1e-7 if solver != "euler" else 0.05, 0.08, 1e-6, rhs, y0,
-                                      snaps=True, max_items=1000000))
+                                      snaps=True, evals=True, max_items=1000000))
     ann = ivpcommon.annotate_snaps(ivpcommon.harness_runs(ctx, cases, tag="st", nproc=1))
     nsnap = sum(1 for e in ann if e["ev"] == "snap")
     drifts, nruns = ivpcommon.validate_design(ctx, ann, tag="st", nshards=1)
-    t.check("clean step() snapshot trace explained by IvpProtocol over doubles", nsnap > 50 and not drifts, "%d snapshots, %d runs" % (nsnap, nruns))
+    nev_ = sum(len(e.get("ets", [])) for e in ann if e["ev"] == "snap")
+    t.check("clean step() snapshot trace (with derivative-evaluation times) explained by IvpProtocol over doubles", nsnap > 50 and nev_ > 100 and not drifts,
+            "%d snapshots, %d evaluation times, %d runs" % (nsnap, nev_, nruns))
     ann2 = copy.deepcopy(ann)
     ks = [j for j, e in enumerate(ann2) if e["ev"] == "snap" and e["c"] == 1]
     ann2[ks[7]]["dt"] = bump(ann2[ks[7]]["dt"], 1)
     ann2[ks[6]]["n_dt"] = ann2[ks[7]]["dt"]
     drifts, _ = ivpcommon.validate_design(ctx, ann2, tag="st", nshards=1)
     t.check("one snapshot's dt changed by one ulp -> that run is rejected (drift)", [c for c, _ in drifts] == [1])
+    ann2 = copy.deepcopy(ann)
+    kq = next(j for j in ks if len(ann2[j]["ets"]) >= 1)
+    ann2[kq]["ets"][-1] = bump(ann2[kq]["ets"][-1], 1)
+    drifts, _ = ivpcommon.validate_design(ctx, ann2, tag="st", nshards=1)
+    t.check("one derivative-evaluation time changed by one ulp -> that run is rejected (drift)", [c for c, _ in drifts] == [1])
+    ann2 = copy.deepcopy(ann)
+    kq = next(j for j in ks if len(ann2[j]["ets"]) >= 4)
+    del ann2[kq]["ets"][2]
+    drifts, _ = ivpcommon.validate_design(ctx, ann2, tag="st", nshards=1)
+    t.check("one derivative evaluation missing from a step -> that run is rejected (drift)", [c for c, _ in drifts] == [1])
     ann2 = [e for j, e in enumerate(ann) if j != ks[9]]          # as if the hook line were missing for one call
     drifts, _ = ivpcommon.validate_design(ctx, ivpcommon.annotate_snaps(ann2), tag="st", nshards=1)
     t.check("one snapshot removed (a missing hook call) -> that run is rejected (drift)", [c for c, _ in drifts] == [1])
